@@ -68,9 +68,10 @@ def switch_skeletons(pack, full=True):
             ('seq', [('act', 0), ('chr', 's')]),
             ('seq', [('chr', 't'), ('q', ('chr', 'u'))]),                              # ends in `?`: the emitted case body ends in a bare label
             ('seq', [('chr', 'v'), ('alt', [('chr', 'w'), ('chr', '1')], False)]),     # ends in a choice: likewise
+            ('seq', [('rng', '2', '2'), ('chr', 'q')]),                                # a single-key range: its test is elided inside a case
         ]
     n = len(pool(0))
-    idx = list(range(n)) if full else [0, 1, 2, 3, 4, 6, 8, 11, 12]
+    idx = list(range(n)) if full else [0, 1, 2, 3, 4, 6, 8, 11, 12, 14]
     combos = [(a, b, c) for a in idx for b in idx for c in idx]
     packs = []
     for i in range(0, len(combos), pack):
@@ -85,7 +86,7 @@ def switch_skeletons(pack, full=True):
     return packs
 
 
-SKEL_INPUTS = ['', 'aq', 'bq', 'cq', 'df', 'ef', 'f', 'gh', 'h', 'i', 'ii', 'x', 'jx', 'kl', 'kkl', 'l', 'mo', 'no', 'xz', 'yz', 'z', 'p', 'pp', 'r', 's', 'aqx', 'q', 'e', 't', 'tu', 'tq', 'vw', 'v1', 'v']
+SKEL_INPUTS = ['', 'aq', 'bq', 'cq', 'df', 'ef', 'f', 'gh', 'h', 'i', 'ii', 'x', 'jx', 'kl', 'kkl', 'l', 'mo', 'no', 'xz', 'yz', 'z', 'p', 'pp', 'r', 's', 'aqx', 'q', 'e', 't', 'tu', 'tq', 'vw', 'v1', 'v', '2q', '2', '3q']
 
 
 def grammars(tier, seed, name='core'):
